@@ -265,11 +265,24 @@ def rule_atomic_counter(ctx, rid, r):
     for n in cb.own_nodes():
         if isinstance(n, ast.If) and r.count_name in names_in(n.test):
             txt = norm(n.test)
-            ok = isinstance(n.test, ast.Compare) and len(n.test.ops) == 1 and isinstance(n.test.ops[0], ast.Eq) \
-                and const(n.test.comparators[0]) == 0
-            ok = ok or (isinstance(n.test, ast.UnaryOp) and isinstance(n.test.op, ast.Not))
-            ctx.ob(rid, f"{cb.short}/zero-test", ok, loc(cb, n), "enqueue exactly when the count reaches zero" if ok else
-                   f"readiness test `{txt}` is not `== 0`", head(n))
+            t_, pol_ = _positive(n.test, True)
+            # accepted: `count == 0` guarding the enqueue in its true branch (or the negation with the enqueue in the else branch),
+            # or the truthiness form `not count`
+            if isinstance(t_, ast.Compare) and len(t_.ops) == 1 and isinstance(t_.ops[0], ast.Eq) and const(t_.comparators[0]) == 0 \
+                    and isinstance(t_.left, ast.Subscript):
+                zero_branch = n.body if pol_ else n.orelse
+            elif isinstance(t_, ast.Subscript):
+                zero_branch = n.orelse if pol_ else n.body
+            else:
+                zero_branch = None
+            puts_in_zero = [c for s_ in (zero_branch or []) for c in ast.walk(s_) if isinstance(c, ast.Call) and c in put_sites(m, cb, r)]
+            other_branch = (n.orelse if zero_branch is n.body else n.body) if zero_branch is not None else []
+            puts_elsewhere = [c for s_ in other_branch for c in ast.walk(s_) if isinstance(c, ast.Call) and c in put_sites(m, cb, r)]
+            ok = zero_branch is not None and len(puts_in_zero) == 1 and not puts_elsewhere
+            ctx.ob(rid, f"{cb.short}/zero-test", ok, loc(cb, n),
+                   "the successor is enqueued exactly in the branch where its remaining count is zero" if ok else
+                   f"readiness test `{txt}`: the enqueue is not (only) in the branch where the remaining count equals zero "
+                   f"(a successor starts while predecessors are outstanding, or is never enqueued)", head(n))
 
 
 # ------------------------------------------------------------------------------------------------ A3 / A4
